@@ -1,5 +1,8 @@
 //! C12 harness: token pool API sequences, accept_loop driven directly, full-server scenarios.
-//! The scenario driver is shared with C13 (src/acc_common.rs).
+//! The scenario code is shared: src/srv_common.rs (public API only) and src/acc_common.rs
+//! (servlin::internal::{TokenSet, Token, accept_loop}).
+#[path = "../srv_common.rs"]
+mod srv_common;
 #[path = "../acc_common.rs"]
 mod acc_common;
 fn main() {
